@@ -32,6 +32,9 @@ pub enum Op {
 #[derive(Clone, Debug, Hash, PartialEq, Eq)]
 pub struct Hist {
     pub ops: Vec<Op>,
+    /// run the whole history on a freshly spawned thread with a 128 KiB stack (the smallest default thread stack of a
+    /// mainstream libc): core operations must not need more
+    pub small_stack: bool,
 }
 pub struct C17Api;
 
@@ -122,9 +125,24 @@ impl Scenario for C17Api {
                 }
             })
             .collect();
-        Hist { ops }
+        Hist { ops, small_stack: r.chance(1, 12) }
     }
     fn execute(&self, h: &Hist, st: &mut Stats) -> Outcome {
+        if h.small_stack {
+            st.hit("fault.history_on_small_stack_thread");
+            let mut local = Stats::default();
+            let h2 = Hist { ops: h.ops.clone(), small_stack: false };
+            let out = std::thread::scope(|sc| {
+                std::thread::Builder::new().stack_size(128 * 1024).spawn_scoped(sc, || self.execute(&h2, &mut local)).expect("spawn").join()
+            });
+            st.merge(&local);
+            return out.unwrap_or_else(|_| Outcome {
+                violation: Some(Violation { class: "panic:on-small-stack-thread".into(), detail: "the history panicked on a thread with a 128 KiB stack".into() }),
+                digest: 0,
+                nontrivial: true,
+                states: vec![],
+            });
+        }
         st.hit("runs");
         let mut fnv = Fnv::new();
         let mut states = Vec::new();
@@ -177,8 +195,11 @@ impl Scenario for C17Api {
         let mut out = Vec::new();
         let n = h.ops.len();
         if n > 1 {
-            out.push(Hist { ops: h.ops[..n / 2].to_vec() });
-            out.push(Hist { ops: h.ops[n / 2..].to_vec() });
+            out.push(Hist { ops: h.ops[..n / 2].to_vec(), small_stack: h.small_stack });
+            out.push(Hist { ops: h.ops[n / 2..].to_vec(), small_stack: h.small_stack });
+        }
+        if h.small_stack {
+            out.push(Hist { ops: h.ops.clone(), small_stack: false });
         }
         for i in 0..n {
             let mut c = h.clone();
@@ -209,7 +230,7 @@ impl Scenario for C17Api {
             Op::Quartile { v, raw, i } => json!({"op":"quartile","v":v,"raw":hex(raw),"i":i}),
             Op::HashBuf { v, data } => json!({"op":"hash_buf","v":v,"data":data.to_json()}),
             Op::CompareStr { v, a, b } => json!({"op":"compare_str","v":v,"a":hex(a),"b":hex(b)}),
-        }).collect::<Vec<_>>()})
+        }).collect::<Vec<_>>(), "small_stack": h.small_stack})
     }
     fn from_json(&self, v: &Value) -> Result<Hist, String> {
         let mut ops = Vec::new();
@@ -222,6 +243,6 @@ impl Scenario for C17Api {
                 _ => Op::W(op_from(j)?),
             });
         }
-        Ok(Hist { ops })
+        Ok(Hist { ops, small_stack: v["small_stack"].as_bool().unwrap_or(false) })
     }
 }
